@@ -192,7 +192,7 @@ def summarize(sess, evs, idx):
     return key, what
 
 
-def run_and_validate(run, sessions, label, keys=False):
+def run_and_validate(run, sessions, label, keys=False, timeouts_reproduce=False):
     """Executes sessions on the real code, validates the traces, reports rejections."""
     binary = run.go_build("execdrv")
     sp = os.path.join(run.scratch, "sessions-%s.ndjson" % label)
@@ -207,10 +207,26 @@ def run_and_validate(run, sessions, label, keys=False):
     ns, nev, rejected = validate_traces(run, "ExecTrace.tla", "ExecTrace.cfg" if keys else "ExecTraceNoKeys.cfg", tp)
     run.log("%s: %d sessions, %d events validated, %d rejected" % (label, ns, nev, len(rejected)))
     # timeouts are an infrastructure matter unless they reproduce (handled by C09)
+    hung_confirmed = set()
     for sid, evs, idx in rejected:
         sess = by_id.get(sid)
-        if any(e.get("ev") == "timeout" for e in evs):
-            raise Infra("session %s hit the driver watchdog (not a verdict): %s" % (sid, json.dumps(sess)[:400]))
+        if any(e.get("ev") == "timeout" for e in evs) and sid not in hung_confirmed:
+            if not timeouts_reproduce:
+                raise Infra("session %s hit the driver watchdog (not a verdict): %s" % (sid, json.dumps(sess)[:400]))
+            # a hang is a verdict only if the same session hangs again, alone, with ten times the budget
+            n_to = 0
+            for k in range(2):
+                rs = os.path.join(run.scratch, "sessions-repro%d.ndjson" % k)
+                rt = os.path.join(run.scratch, "traces-repro%d.ndjson" % k)
+                for p in (rs, rt):
+                    if os.path.exists(p):
+                        os.remove(p)
+                write_ndjson(rs, [sess])
+                run_driver(run, binary, rs, rt, nshards=1, extra=("-calltimeout", "200s"), timeout=3600)
+                n_to += 1 if any(e.get("ev") == "timeout" for e in read_ndjson(rt)) else 0
+            if n_to < 2:
+                raise Infra("session %s hit the driver watchdog but did not hang again twice alone (not a verdict)" % sid)
+            hung_confirmed.add(sid)
         key, what = summarize(sess, evs, idx)
         run.violation(key, {"session": sess, "trace": evs, "rejected_event_index": idx,
                             "spec": "ExecTrace.tla", "how_to_replay": "bin/check replay <this file>"}, what)
